@@ -20,3 +20,11 @@ Definition codec_decode (chk : bool) (buf : bytes) : decode_result message := fr
 (* FramedRead<_, Codec> driven to the end of a list of read events *)
 Definition codec_run_stream (chk : bool) (evs : list read_ev) : list message * final :=
   run_stream (qp_parse chk) evs.
+
+(* the known class F2 at frame level: the frame is complete and within the limit, and the body parser overruns
+   an enclosing length-delimited region (ProtoCodec.overrun_b, decided by the instrumented run) *)
+Definition codec_overrun (buf : bytes) : bool :=
+  match uv_decode buf with
+  | UvOk n rest => if (max_message_size <? n) || (len rest <? n) then false else overrun_b rest n
+  | _ => false
+  end.
